@@ -6,6 +6,8 @@ import (
 	"errors"
 	"fmt"
 	"math"
+	"os"
+	"runtime/debug"
 	"sort"
 	"testing"
 	"testing/synctest"
@@ -313,6 +315,9 @@ func guard(o *Outcome, entry string, f func()) (panicked bool) {
 	defer func() {
 		if r := recover(); r != nil {
 			panicked = true
+			if os.Getenv("DSIM_STACK") != "" { // debugging aid only; never part of the event log
+				os.WriteFile(fmt.Sprintf("%s-%d.txt", os.Getenv("DSIM_STACK"), os.Getpid()), []byte(fmt.Sprintf("%s: %v\n%s\n", entry, r, debug.Stack())), 0o644)
+			}
 			o.Violate("C09", "panic", fmt.Sprintf("%s panicked: %v", entry, r), map[string]string{"entry": entry})
 		}
 	}()
@@ -631,6 +636,8 @@ func (w *worldExec) delegate(s *DlgSpec) {
 		return nil, false
 	}
 	defer func() { polBase = nil }()
+	sc := *s // the plan stays as generated; normalisations below live in the executor's copy
+	s = &sc
 	s.Iss, s.Aud, s.Sub = w.cast.canon(s.Iss), w.cast.canon(s.Aud), w.cast.canon(s.Sub)
 	if s.Iss < 0 || s.Iss >= lookAlike {
 		s.Iss = 0 // an issuer is always a cast member holding a key
@@ -687,8 +694,10 @@ func (w *worldExec) delegate(s *DlgSpec) {
 			return
 		}
 		sealed = env.bytes()
-		s.Cmd = s.RawCmd
-		a := &artefact{label: s.Label, kind: "dlg", sealed: sealed, cid: harnessCID(sealed), dspec: s, obj: nil, bornNS: nowNS()}
+		// (the plan itself stays as generated: replays and the minimiser execute it again)
+		s2 := *s
+		s2.Cmd = s.RawCmd
+		a := &artefact{label: s.Label, kind: "dlg", sealed: sealed, cid: harnessCID(sealed), dspec: &s2, bornNS: nowNS()}
 		w.outbox[s.Label] = a
 		w.ledger[cidHex(a.cid)] = a
 		o.Logf("delegate %s (raw command) cid=%s len=%d", s.Label, cidHex(a.cid)[:16], len(sealed))
@@ -702,6 +711,8 @@ func (w *worldExec) delegate(s *DlgSpec) {
 }
 
 func (w *worldExec) invoke(s *InvSpec) {
+	sc := *s
+	s = &sc
 	s.Iss, s.Aud, s.Sub = w.cast.canon(s.Iss), w.cast.canon(s.Aud), w.cast.canon(s.Sub)
 	if s.Iss < 0 || s.Iss >= lookAlike {
 		s.Iss = 0 // an issuer is always a cast member holding a key
@@ -1340,14 +1351,20 @@ func (w *worldExec) probe(p *ProbeSpec) {
 			o.Violate("C04", "single-token", fmt.Sprintf("%s (%s, %s) valid at t=%dns strictly outside its window", p.Label, form, call, t), map[string]string{"form": form})
 		}
 	}
+	// (a token whose bytes a deviating issuer rewrote after construction exists only as bytes)
+	hasObj := a.obj != nil
 	o.Logf("probe %s n=%d", p.Label, len(p.AtNS))
 	for _, t := range p.AtNS {
-		one(a.obj, "constructed", toNS(nbf, sub), toNS(exp, sub), t, false)
+		if hasObj {
+			one(a.obj, "constructed", toNS(nbf, sub), toNS(exp, sub), t, false)
+		}
 		if dec != nil {
 			one(dec, "decoded", toNS(nbf, 0), toNS(exp, 0), t, false)
 		}
 	}
-	one(a.obj, "constructed", toNS(nbf, sub), toNS(exp, sub), nowNS(), true)
+	if hasObj {
+		one(a.obj, "constructed", toNS(nbf, sub), toNS(exp, sub), nowNS(), true)
+	}
 	if dec != nil {
 		one(dec, "decoded", toNS(nbf, 0), toNS(exp, 0), nowNS(), true)
 	}
